@@ -157,7 +157,11 @@ fn exec_hash_inner(op: &Value) -> Value {
         "h2f" => {
             let msg = j_to_bytes(&op["msg"]);
             let dst = j_to_bytes(&op["dst"]);
-            let count = op["count"].as_u64().unwrap() as usize;
+            // counts beyond 32 bits are logged as limb arrays ("countbig")
+            let count = match op.get("countbig") {
+                Some(v) => nat_to_words(v, 1).expect("count does not fit usize")[0] as usize,
+                None => op["count"].as_u64().unwrap() as usize,
+            };
             let e = match op["f"].as_str().unwrap() {
                 "Fq" => h2f::<Fq>(x, &msg, &dst, count),
                 "Fr" => h2f::<Fr>(x, &msg, &dst, count),
